@@ -6,10 +6,12 @@ package c08
 
 import (
 	"bytes"
+	"context"
 	"crypto/ed25519"
 	"crypto/x509"
 	"crypto/x509/pkix"
 	"encoding/json"
+	"errors"
 	"fmt"
 	"math/big"
 	"os"
@@ -399,6 +401,61 @@ func runOrder(k orderCase, r *engine.Report) (string, string) {
 	}
 	r.Branch("order:" + action)
 	r.Outcome("order:" + action)
+	// the same stored roots, but this call cannot read them: it may not take
+	// "unreadable" for "missing" - it must fail and leave storage as it is
+	if pre != nil && !k.Config.Reinit && k.Config.Store == "inmem" {
+		for _, mode := range []string{"load-fails", "stored-wrapped-called-without-wrapper", "stored-wrapped-called-with-another-wrapper"} {
+			if sig, msg := unreadable(k, pre, at(k.Ranks[4]), mode); sig != "" {
+				return sig, fmt.Sprintf("[%s] stored windows as ranks cur=%d..%d next=%d..%d now=%d (%v apart), %s: %s", k.Config, k.Ranks[0], k.Ranks[1], k.Ranks[2], k.Ranks[3], k.Ranks[4], unit, mode, msg)
+			}
+		}
+		r.Branch("order:unreadable-roots-refused")
+	}
+	return "", ""
+}
+
+// failingLoad fails every Load of the roots with an error that is not "not found".
+type failingLoad struct{ nodeenrollment.Storage }
+
+func (f failingLoad) Load(ctx context.Context, m nodeenrollment.MessageWithId) error {
+	if _, ok := m.(*types.RootCertificates); ok {
+		return errors.New("injected: storage unreachable")
+	}
+	return f.Storage.Load(ctx, m)
+}
+
+func unreadable(k orderCase, pre *types.RootCertificates, now time.Time, mode string) (string, string) {
+	inner, _ := inmem.New(harness.Ctx)
+	var st nodeenrollment.Storage = inner
+	opts := k.Config.opts()
+	switch mode {
+	case "load-fails":
+		if err := pre.Store(harness.Ctx, inner); err != nil {
+			panic(err)
+		}
+		st = failingLoad{inner}
+	default:
+		if err := proto.Clone(pre).(*types.RootCertificates).Store(harness.Ctx, inner, nodeenrollment.WithStorageWrapper(harness.Wrapper("c08-roots", 1))); err != nil {
+			panic(err)
+		}
+		if mode == "stored-wrapped-called-with-another-wrapper" {
+			opts = append(opts, nodeenrollment.WithStorageWrapper(harness.SafeWrapper{Wrapper: harness.Wrapper("c08-other", 1)}))
+		}
+	}
+	before := &types.RootCertificates{Id: nodeenrollment.RootsMessageId}
+	if err := inner.Load(harness.Ctx, before); err != nil {
+		panic(err)
+	}
+	setClock(k.Config, now)
+	_, err := rotation.RotateRootCertificates(harness.Ctx, st, opts...)
+	after := &types.RootCertificates{Id: nodeenrollment.RootsMessageId}
+	lerr := inner.Load(harness.Ctx, after)
+	switch {
+	case lerr != nil || !proto.Equal(before, after):
+		return "unreadable-roots-replaced:" + mode, fmt.Sprintf("the call could not read the stored roots, yet storage was changed (call error: %v)", err)
+	case err == nil:
+		return "unreadable-roots-no-error:" + mode, "the call could not read the stored roots and reported success"
+	}
 	return "", ""
 }
 
